@@ -1,4 +1,6 @@
 """C02 - replay transparency: per-position deliveries identical across invocations; final outcome independent of interruptions."""
+import copy
+
 from checks.worldcheck import Spec, replayed_delivery
 
 PROP = "C02"
@@ -58,6 +60,38 @@ def explicit2(tier, seed):
                "pattern": {"p": "crash_enum", "max_points": 8} if j % 3 == 1 else {"p": "plain"}}
 
 
+def nested_cases(tier, seed):
+    """(a) a branch returns the BatchResult of an inner map/parallel as its own result (nested batch results); (b) branches that
+    raise directly (not through a failing step) under tolerant completion configs: what the workflow sees of the failure must
+    not depend on whether the block was built live or re-read after an interruption."""
+    i = 0
+    for outer in ("par", "map"):
+        for inner in ("par", "map"):
+            inn = {"k": "map", "items": [1, 2], "body": [{"k": "step", "val": 10}], "cfg": None} if inner == "map" else \
+                {"k": "par", "branches": [{"body": [{"k": "step", "val": 1}]}, {"body": [{"k": "step", "val": 2}]}], "cfg": None}
+            brs = [{"body": [{"k": "step", "val": "pre"}, copy.deepcopy(inn)], "result": {"raw_last": True}} for _ in range(2)]
+            node = {"k": "par", "branches": brs, "cfg": {"preset": "all_completed"}} if outer == "par" else \
+                {"k": "map", "items": [0, 1], "per_item": brs, "body": [], "cfg": None}
+            body = [node, {"k": "wait", "s": 1}, {"k": "step", "val": "after"}, {"k": "wait", "s": 1}, {"k": "step", "val": "end"}]
+            for pat in ({"p": "plain"}, {"p": "crash_enum", "max_points": 10}):
+                yield {"label": "nested-batch-result", "prog": {"body": body}, "prog_seed": 25700 + i, "pattern": pat}
+                i += 1
+    for kind in ("par", "map"):
+        # tolerances that are never exceeded here, so every branch runs to its end and the block's result does not depend on the schedule
+        # (the all_completed preset configures nothing and is therefore decided by the first failure)
+        for cfg in ({"tol_n": 5}, {"tol_n": 2}, {"tol_pct": 80}):
+            brs = [{"body": [{"k": "step", "val": 0}, {"k": "raise", "cls": "ValueError", "msg": "direct %d" % b}]} if b % 2 == 0 else {"body": [{"k": "step", "val": b}]} for b in range(3)]
+            node = {"k": "par", "branches": brs, "cfg": cfg} if kind == "par" else {"k": "map", "items": [0, 1, 2], "per_item": brs, "body": [], "cfg": cfg}
+            body = [{"k": "try", "body": node, "catch": "*"}, {"k": "step", "val": "after"}, {"k": "wait", "s": 1}, {"k": "step", "val": "end"}]
+            yield {"label": "branch-raises-directly", "prog": {"body": body}, "prog_seed": 25750 + i, "pattern": {"p": "crash_enum", "max_points": 24}}
+            i += 1
+
+
+def explicit3(tier, seed):
+    yield from explicit2(tier, seed)
+    yield from nested_cases(tier, seed)
+
+
 SPEC = Spec(
     PROP,
     level="fault_enumeration",
@@ -72,7 +106,7 @@ SPEC = Spec(
     "(runs that interrupted an at-most-once step are excluded from oracle 2 only). Non-trivial = a completed operation was delivered "
     "again in a later invocation. A class = (program shape hash, interruption pattern, crash landing event kind).",
     deciding=replayed_delivery,
-    explicit=explicit2,
+    explicit=explicit3,
     minima={"c02_deliveries": 500},
 )
 cases = SPEC.cases
